@@ -43,6 +43,14 @@ func c02Context(ctx string, f string) string {
 		return "(cleanup " + f + ")"
 	case "custom-cleanup":
 		return "(draw cv (custom (draw c (i 0 9)) (cleanup " + f + ") (ret c)))"
+	case "nested-custom": // a Custom generator drawn inside a Custom generator function
+		return "(draw cv (custom (draw c (custom (draw c (i 0 9)) " + f + " (ret c))) (ret c)))"
+	case "nested-custom-cleanup":
+		return "(draw cv (custom (draw c (custom (draw c (i 0 9)) (cleanup " + f + ") (ret c))) (ret c)))"
+	case "custom-element": // a Custom generator as the element of a collection
+		return "(draw cv (slice (custom (draw c (i 0 9)) " + f + " (ret c)) 1 3))"
+	case "custom-in-action":
+		return "(repeat (act (emit 100) (draw q (custom (draw c (custom (draw c (i 0 9)) " + f + " (ret c))) (ret c))) (emit 200)))"
 	case "nested-cleanup":
 		return "(cleanup (cleanup " + f + "))"
 	case "action-cleanup":
@@ -51,7 +59,8 @@ func c02Context(ctx string, f string) string {
 	panic(ctx)
 }
 
-var c02Contexts = []string{"body", "action", "invariant", "custom", "cleanup", "custom-cleanup", "nested-cleanup", "action-cleanup"}
+var c02Contexts = []string{"body", "action", "invariant", "custom", "cleanup", "custom-cleanup", "nested-cleanup", "action-cleanup",
+	"nested-custom", "nested-custom-cleanup", "custom-element", "custom-in-action"}
 
 // where in the run the falsifying case occurs
 func c02Position(pos string, stmt string) string {
@@ -650,9 +659,12 @@ func checkReplay(prog *SX, seed uint64) (what string, nontrivial bool) {
 	return
 }
 
+var lastSignalInCustom bool // set by checkReplay2: the recorded run signalled a failure inside a Custom function
+
 func checkReplay2(prog *SX, seed uint64) (what string, nontrivial bool, isD2 bool) {
 	s := rapid.VerifRandStream(seed, true)
-	d1, e1, _ := runOnce(prog, s)
+	d1, e1, in1 := runOnce(prog, s)
+	lastSignalInCustom = len(in1.invs) > 0 && in1.invs[0].signalInCustom
 	rec := s.Rec()
 	isD2 = d2Shape(rec)
 	hasDiscard := false
@@ -707,7 +719,7 @@ func init() {
 			}
 			m.eval(prog.String()+fmt.Sprint(seed), nontrivial)
 			if what != "" {
-				m.violate(violation{"C04", "replay", what, map[string]string{"prog": prog.String(), "seed": fmt.Sprint(seed), "d2shape": fmt.Sprint(d2)}})
+				m.violate(violation{"C04", "replay", what, map[string]string{"prog": prog.String(), "seed": fmt.Sprint(seed), "d2shape": fmt.Sprint(d2), "signal_in_custom": fmt.Sprint(lastSignalInCustom)}})
 			}
 		}
 		// Example(seed) is a function of the seed; history independence: interleave other work
@@ -741,6 +753,11 @@ func init() {
 			"((draw a (distinct (i 0 50) 0 8 (id))) (if (lenge a 4) (fatal 1)) (if (lenge a 2) (fatal 2)))",
 			"((draw a (i 0 1000)) (if (ge a 900) (rtpanic 1)) (if (ge a 500) (fatal 2)) (if (ge a 100) (failnow 3)))",
 			"((draw a (string (runes 97 98 233 8364 128512) 0 -1 -1)) (draw b (mapof (i 0 9) (bool) 0 -1)) (if (lenge a 5) (fatal 1)) (if (lenge b 3) (fatal 2)))",
+			// distinct failure sites that report the SAME message: only the call stack tells them apart
+			"((draw a (slice (i 0 1000) 0 8)) (draw b (i -9223372036854775808 9223372036854775807)) (if (lenge a 3) (failnow 1)) (if (ge b 100) (failnow 2)))",
+			"((draw a (i 0 1000)) (draw b (i 0 1000)) (if (ge a 700) (rtpanic 1)) (if (ge b 300) (rtpanic 2)))",
+			"((draw a (distinct (i 0 50) 0 8 (id))) (if (lenge a 4) (failnow 1)) (if (lenge a 2) (failnow 2)))",
+			"((draw a (i 0 1000)) (draw b (slice (bool) 0 5)) (if (ge a 500) (failnow 3)) (if (lenge b 2) (failnow 4)))",
 		}
 		for i := 0; i < 40*scale; i++ {
 			var prog *SX
